@@ -371,7 +371,15 @@ func applyMuts(d []byte, muts []Mut) ([]byte, []string) {
 				done = false
 				break
 			}
-			switch m.A % 3 {
+			switch m.A % 5 {
+			case 3, 4: // a VALID non-zero unused-bits count: 1..7, with those low bits of the last octet cleared
+				if len(c) < 2 {
+					done = false
+					break
+				}
+				k := 1 + (m.A/5)%7
+				c[0] = byte(k)
+				c[len(c)-1] &^= byte(1<<uint(k) - 1)
 			case 0:
 				c[0] = byte(m.A/3) % 10
 			case 1:
